@@ -679,13 +679,19 @@ def _search_wildcard(elem, session, query=None):
     if value is None or value == "":
         value = "*"
 
-    value = value.replace("*", "%")
-    value = value.replace("?", "_")
-
     if not query:
         query = session.query(Instance)
 
-    return query.filter(attr.like(value))
+    if elem.VR == "PN":
+        # Case-insensitive: LIKE, '%' and '_' in the key are not wildcards
+        value = value.replace("\\", "\\\\").replace("%", "\\%").replace("_", "\\_")
+        value = value.replace("*", "%")
+        value = value.replace("?", "_")
+        return query.filter(attr.like(value, escape="\\"))
+
+    # Case-sensitive: GLOB uses '*' and '?' itself, '[' in the key is not special
+    value = value.replace("[", "[[]")
+    return query.filter(attr.op("GLOB")(value))
 
 
 # Database table setup stuff
